@@ -5,6 +5,18 @@
 -/
 import QecVerif.Model.DriverC09
 import QecVerif.Model.DriverApp
+import QecVerif.Model.DriverC19
+import QecVerif.Model.DriverC17
+import QecVerif.Model.DriverC16
+import QecVerif.Model.DriverC14
+import QecVerif.Model.DriverC13
+import QecVerif.Model.DriverC12
+import QecVerif.Model.DriverC11
+import QecVerif.Model.DriverC10
+import QecVerif.Model.DriverC08
+import QecVerif.Model.DriverC06
+import QecVerif.Model.DriverC03
+import QecVerif.Model.DriverC02
 import QecVerif.Model.DriverBasic
 import QecVerif.Model.DriverFileEM
 import QecVerif.Model.DriverLattice
@@ -24,6 +36,18 @@ def dispatch (line : String) : String :=
   | "c04" :: rest => (c04 rest).getD "bad-op"
   | "c05" :: rest => (c05 rest).getD "bad-op"
   | "c18" :: rest => (c18 rest).getD "bad-op"
+  | "c19" :: rest => (c19 rest).getD "bad-op"
+  | "c17" :: rest => (c17 rest).getD "bad-op"
+  | "c16" :: rest => (c16 rest).getD "bad-op"
+  | "c14" :: rest => (c14 rest).getD "bad-op"
+  | "c13" :: rest => (c13 rest).getD "bad-op"
+  | "c12" :: rest => (c12 rest).getD "bad-op"
+  | "c11" :: rest => (c11 rest).getD "bad-op"
+  | "c10" :: rest => (c10 rest).getD "bad-op"
+  | "c08" :: rest => (c08 rest).getD "bad-op"
+  | "c06" :: rest => (c06 rest).getD "bad-op"
+  | "c03" :: rest => (c03 rest).getD "bad-op"
+  | "c02" :: rest => (c02 rest).getD "bad-op"
   | "basic" :: rest => (basic rest).getD "bad-op"
   | "planar" :: rest => (planar rest).getD "bad-op"
   | "color666" :: rest => (color666 rest).getD "bad-op"
